@@ -42,7 +42,7 @@ SPEC = {
         "one evaluation = one seeded run (2-3 sessions, 10-36 ops); non-trivial = at least one read by another session fell between a "
         "transaction's first write and its COMMIT/ROLLBACK, or after its COMMIT; distinct = hash of (op kinds per session, schedule of sessions)"
     ),
-    "bounds": "2-3 sessions x 1-2 cursors, 10-36 ops, 1-2 tables per session, one database (DuckDB refuses multi-database write transactions)",
+    "bounds": "2-3 sessions (thorough: up to 4) x 1-2 cursors, 10-36 ops, 1-2 tables per session, one database (DuckDB refuses multi-database write transactions)",
     "components_real": ["fakesnow/*", "sqlglot", "duckdb engine (in-memory)"],
     "components_stubbed": ["thread scheduling (serial: one thread in list order; otherwise baton over real threads)"],
     "assumptions": ["writes of different sessions never touch the same table (the property says non-conflicting writes)"],
@@ -51,7 +51,7 @@ SPEC = {
 
 
 def gen(rng: Any, prop: str, tier: str) -> dict[str, Any]:
-    k = rng.choice([2, 2, 3])
+    k = rng.choice([2, 2, 3] + ([3, 4] if tier == "thorough" else []))  # deeper bound in the thorough tier
     sids = [f"s{i}" for i in range(k)]
     tables = {sid: [f"T_{sid.upper()}"] + ([f"U_{sid.upper()}"] if rng.random() < 0.4 else []) for sid in sids}
     setup = [f"CREATE TABLE {DB}.{SC}.{t} (id INT, who VARCHAR(10))" for sid in sids for t in tables[sid]]
